@@ -25,7 +25,8 @@ JUDGE_CFG = "INIT JudgeInit\nNEXT JudgeNext\nCHECK_DEADLOCK FALSE\n"
 
 
 def name(c):
-    return "%s@%s/%s T=%s M=%s%s" % (c["loop"], c["place"], c["wrap"], c["t"], c["m"], " finite" if c["finite"] else "")
+    return "%s@%s/%s T=%s M=%s%s%s" % (c["loop"], c["place"], c["wrap"], c["t"], c["m"], " finite" if c["finite"] else "",
+                                       "" if c.get("prof", "uniform") == "uniform" else " " + c["prof"])
 
 
 def run(rep):
@@ -63,7 +64,7 @@ def run(rep):
         cases.append(c)
     if len(cases) < 200:
         raise Machinery("too few cases: %d" % len(cases))
-    rep.spaces.append({"space": "keep-running construct x place x wrapper x T x memory_limit (+ finite twins)", "cases": len(cases), "complete": True})
+    rep.spaces.append({"space": "keep-running construct x place x wrapper x T x memory_limit x step-cost profile (+ finite twins)", "cases": len(cases), "complete": True})
     results = engine.run_cases(rep.pid, cases, driver="checks.c01_driver:driver", timeout=3000)
     recs = [{k: r[k] for k in ("id", "finite", "o", "lateV", "lateR", "steps", "t", "isnum")} for r in results]
     verdicts, st, tr, _ = tlc.judge(rep.pid, "C01", recs, JUDGE_CFG, shards=8)
